@@ -220,9 +220,11 @@ def run(ctx):
                 "(request number, server slot, sequence), request id and channel id of every ActiveRequest taken from its Debug "
                 "output, channel id of every loan) and, after EVERY operation, is_connected + has_response of every live "
                 "PendingResponse and is_connected + has_disconnect_hint of every live ActiveRequest. The oracle of the property "
-                "(extracted o_recv / o_act_connected) runs on the implementation's observations: routing, per-(pending, server) "
-                "order, at most once, no response after channel reuse, an ActiveRequest is connected only while its "
-                "PendingResponse lives, no panic. exhaustive: all operation sequences of length %d..%d (ipc: %d) over 10-14 "
+                "(extracted o_recv / o_act_connected) runs on the implementation's observations for the whole case: routing, "
+                "per-(pending, server) order, at most once, no response after channel reuse, an ActiveRequest is connected only "
+                "while its PendingResponse lives, at most max_servers recipients, a request handed out at most once per server, "
+                "no panic; the hypothesis of c11_routing_under_send_ok (extracted step_send_okb) is evaluated on every step and "
+                "must hold in every history outside the known class (no client created after a client drop). exhaustive: all operation sequences of length %d..%d (ipc: %d) over 10-14 "
                 "operation alphabets (core, loan, ports, c2, s2, reuse), limits 1..2, overflow and fire-and-forget on/off, "
                 "preallocation override 1..2 and prologues that force channel reuse; random: seeded histories up to 300 "
                 "operations over the full 39-operation alphabet (2 client slots x 2 server slots), 22%% channel-reuse patterns. "
@@ -243,23 +245,24 @@ def run(ctx):
     reported = set()
     for lbl, cmd, line in spec_mm:
         key = classify(line)
-        case_no = int(line.split("case=")[1].split()[0])
-        hist = vlib.extract_case(cmd.split(), driver, case_no)
-        if key == "routing:stale-active-request-reaches-new-client" and not index_reuse(hist):
-            key = None     # the known class needs a client created after a client was dropped
         sig = key or re.search(r"what=(\w+)", line).group(1)
         ctx.cov.setdefault("spec_mismatch_signatures", {})
         ctx.cov["spec_mismatch_signatures"][sig] = ctx.cov["spec_mismatch_signatures"].get(sig, 0) + 1
         if sig in reported:
             continue
         reported.add(sig)
+        case_no = int(line.split("case=")[1].split()[0])
+        hist = vlib.extract_case(cmd.split(), driver, case_no)
+        if key == "routing:stale-active-request-reaches-new-client" and not index_reuse(hist):
+            key = None     # the known class needs a client created after a client was dropped
         op_no = int(line.split("op=")[1].split()[0])
         ctx.violation("request-response ports differ from the reference specification: " + line[:300],
                       {"history": [h[:200] for h in hist[:op_no + 2]], "harness_cmd": cmd, "mismatch": line[:600],
                        "how_to_rerun": cmd + " | " + driver}, key=key)
         if len(ctx.violations) >= 5:
             break
-    if model_mm and not [m for m in spec_mm if classify(m[2]) is None]:
+    KNOWN = "routing:stale-active-request-reaches-new-client"
+    if model_mm and not [m for m in spec_mm if classify(m[2]) != KNOWN]:
         # SEARCH phase: the tie broke but the oracle saw no (new) violation.  Re-run the harness around the diverging
         # configurations: saturating / draining random histories with other seeds over the full alphabet, and the
         # core / reuse alphabets one operation longer, oracle only.
@@ -279,7 +282,7 @@ def run(ctx):
         sr = vlib.run_pipelines(sjobs, driver)
         cleanup()
         ctx.cov["search_phase"] = {"jobs": len(sjobs), "cases": sr["cases"], "spec_mismatches": sr["mismatches_spec"]}
-        found = [m for m in sr["mismatch_lines"] if "kind=spec" in m[2] and classify(m[2]) is None]
+        found = [m for m in sr["mismatch_lines"] if "kind=spec" in m[2] and classify(m[2]) != KNOWN]
         for lbl, cmd, line in found[:1]:
             case_no = int(line.split("case=")[1].split()[0])
             hist = vlib.extract_case(cmd.split(), driver, case_no)
